@@ -275,7 +275,7 @@ bool Directory::exists(const String& dir)
 bool Directory::create(const String& dir)
 {
   String parent = File::getDirectoryName(dir);
-  if(parent != "." && !Directory::exists(parent))
+  if(parent != "." && !parent.isEmpty() && !Directory::exists(parent))
   {
     if(!Directory::create(parent))
       return false;
@@ -286,9 +286,14 @@ bool Directory::create(const String& dir)
   if(mkdir(dir, S_IRUSR | S_IWUSR | S_IXUSR | S_IRGRP | S_IXGRP | S_IROTH | S_IXOTH) != 0)
 #endif
   {
+    int err = errno;
     String basename = File::getBaseName(dir);
     if(basename == "." || basename == "..")
       return true;
+    if(err == EEXIST && Directory::exists(dir))
+      return true;
+    errno = err;
+    return false;
   }
   return true;
 }
